@@ -260,7 +260,7 @@ theorem setActionStatus_status (c : Cfg) (i : Nat) (s : AStatus) (hs : s ≠ .pe
   split
   · rename_i a ha
     have hi : i < c.actions.length := (List.getElem?_eq_some_iff.mp ha).1
-    simp [actionStatus, setAt, List.getElem?_set, hi, hs]
+    simp [actionStatus, setAt, hi, hs]
   · rename_i hn
     simp [actionStatus, hn]
 
